@@ -148,6 +148,11 @@ fn vc<T, const N: usize>(whole: &[T], arrs: &[[T; N]]) -> String {
     }
     render::<T>(&locate(whole.as_ptr(), whole.len(), arrs.as_ptr() as *const T, arrs.len(), N))
 }
+/// a usize argument: decimal when small, big-endian hex bytes (`x8000000000000000`) from
+/// 2^32 on (the shared decimal parser of the glue is quadratic in the number of digits)
+fn ux(i: usize) -> String {
+    if i < (1usize << 32) { i.to_string() } else { format!("x{:016x}", i) }
+}
 fn pair(a: String, b: String) -> String {
     format!("({},{})", a, b)
 }
@@ -274,7 +279,7 @@ fn one_idx<T: Elem>(out: &mut Out, len: usize, i: usize) {
         }),
         ("split_mut", mut_pair::<T>(len, |s| if i <= s.len() { s.split_at_mut(i) } else { (s, &mut []) })),
     ]);
-    out.line("c02.idx", &format!("{} {} {}", T::NAME, len, i), &imp, &sd, tag_idx(len, i));
+    out.line("c02.idx", &format!("{} {} {}", T::NAME, ux(len), ux(i)), &imp, &sd, tag_idx(len, i));
 }
 
 fn one_range<T: Elem>(out: &mut Out, len: usize, s_: usize, e_: usize) {
@@ -303,7 +308,7 @@ fn one_range<T: Elem>(out: &mut Out, len: usize, s_: usize, e_: usize) {
     } else {
         "both-out"
     };
-    out.line("c02.range", &format!("{} {} {} {}", T::NAME, len, s_, e_), &imp, &sd, tag);
+    out.line("c02.range", &format!("{} {} {} {}", T::NAME, ux(len), ux(s_), ux(e_)), &imp, &sd, tag);
 }
 
 fn impl_arr<T: Elem, const N: usize>(w: &[T], len: usize) -> String {
@@ -346,14 +351,14 @@ fn one_arr<T: Elem, const N: usize>(out: &mut Out, len: usize) {
     } else {
         "short"
     };
-    out.line("c02.arr", &format!("{} {} {}", T::NAME, len, N), &imp, &sd, tag);
+    out.line("c02.arr", &format!("{} {} {}", T::NAME, ux(len), N), &imp, &sd, tag);
 }
 /// N = 0: konst panics (assert!); no std column
 fn one_arr0<T: Elem>(out: &mut Out, len: usize) {
     let st = Store::<T>::new(len);
     let w: &[T] = st.shared();
     let imp = impl_arr::<T, 0>(w, len);
-    out.line("c02.arr", &format!("{} {} 0", T::NAME, len), &imp, "-", "zero");
+    out.line("c02.arr", &format!("{} {} 0", T::NAME, ux(len)), &imp, "-", "zero");
 }
 
 fn one_ends<T: Elem>(out: &mut Out, len: usize) {
@@ -372,7 +377,7 @@ fn one_ends<T: Elem>(out: &mut Out, len: usize) {
         ("sfirst", mut_opt_pair::<T>(len, |s| elem_rem(s.split_first_mut()))),
         ("slast", mut_opt_pair::<T>(len, |s| elem_rem(s.split_last_mut()))),
     ]);
-    out.line("c02.ends", &format!("{} {}", T::NAME, len), &imp, &sd, if len == 0 { "empty" } else if len == 1 { "one" } else { "many" });
+    out.line("c02.ends", &format!("{} {}", T::NAME, ux(len)), &imp, &sd, if len == 0 { "empty" } else if len == 1 { "one" } else { "many" });
 }
 
 // ---------------------------------------------------------------- generators
@@ -430,7 +435,7 @@ fn sweep_ty<T: Elem>(out: &mut Out, lens: &[usize], cfg: &Cfg) {
         for i in indices(len, true) {
             one_idx::<T>(out, len, i);
         }
-        let ix = indices(len, cfg.thorough && len <= 12);
+        let ix = indices(len, true);
         for &a in &ix {
             for &b in &ix {
                 one_range::<T>(out, len, a, b);
